@@ -72,7 +72,7 @@ def run(tier, seed):
         v.sample(s)
     nt = v.counters.get('mutations', 0)
     if nt == 0 or v.counters.get('parallel_evaluations', 0) == 0:
-        raise MachineryError('vacuous run')
+        v.vacuous('vacuous run')
     cov = dict(states=sum(r['states'] for r in out['runs']), transitions=sum(r['transitions'] for r in out['runs']),
                traces_validated_against_impl=out['nwalks'] + len(out['verdicts']), evaluations=v.counters.get('evaluations', 0),
                distinct_nontrivial=sum(1 for f, c in out['results'] if c.get('mutations')), exhaustive=False,
